@@ -18,6 +18,11 @@ package ledger
 //@ ghost nCommit int
 //@ ghost committedLogs int
 //@ ghost committedFnRuns int
+//@ ghost lastBalances map[string]map[string]*big.Int
+
+//@ function hasBal(b map[string]map[string]*big.Int, a string, x string) bool = has(b, a) && has(b[a], x)
+//@ function balOf(b map[string]map[string]*big.Int, a string, x string) int = val(b[a][x])
+//@ function balSet(b map[string]map[string]*big.Int, a string, x string) bool = b[a] != nil && b[a][x] != nil
 
 // ---- assumed contracts of the Store interface (implemented by internal/storage/ledger over Postgres) ----
 
@@ -58,7 +63,7 @@ package ledger
 //@   modifies writes
 //@   ensures writes == store(old(writes), s, old(writes)[s] + 1)
 //@   ensures err == nil ==> tx != nil
-//@   ensures err == nil && modified ==> tx.RevertedAt != nil && tx.ID != nil
+//@   ensures err == nil && modified ==> tx.RevertedAt != nil && tx.ID != nil && amountsNonNil(tx.Postings)
 
 //@ assumed func (s Store) UpdateTransactionMetadata(ctx context.Context, transactionID uint64, m metadata.Metadata, at time.Time) (tx *ledger.Transaction, modified bool, err error)
 //@   modifies writes
@@ -93,6 +98,11 @@ package ledger
 //@   ensures err == nil ==> r != nil && r.IdempotencyKey == ik
 
 //@ assumed func (s Store) GetBalances(ctx context.Context, query ledgerstore.BalanceQuery) (r ledger.Balances, err error)
+//@   modifies lastBalances
+//@   ensures lastBalances == r
+//@   ensures err == nil ==> r != nil
+//@   ensures err == nil ==> forall a string, x string :: {hasBal(r, a, x)} (has(query, a) && containsStr(query[a], x)) ==> hasBal(r, a, x)
+//@   ensures err == nil ==> forall a string, x string :: {hasBal(r, a, x)} hasBal(r, a, x) ==> balSet(r, a, x)
 
 // ---- log_process.go ---------------------------------------------------------------------------------
 
@@ -177,3 +187,76 @@ package ledger
 //@     ensures fnRuns == store(old(fnRuns), sqlTX, old(fnRuns)[sqlTX] + 1)
 //@     ensures forall h Store :: {writes[h]} h != sqlTX ==> writes[h] == old(writes)[h]
 //@     ensures ferr == nil ==> out != nil
+
+// ---- controller_default.go: the functions run inside forgeLog (they must write only through the store they are given) ----
+
+//@ func (ctrl *DefaultController) upsertTransactionAccounts(ctx context.Context, store Store, schema *ledger.Schema, tx *ledger.Transaction, accountMetadata ledger.AccountMetadata) (err error)
+//@   property C07
+//@   requires tx != nil
+//@   modifies writes
+//@   ensures forall h Store :: {writes[h]} h != store ==> writes[h] == old(writes)[h]
+
+//@ func (ctrl *DefaultController) createTransaction(ctx context.Context, store Store, schema *ledger.Schema, parameters Parameters[CreateTransaction]) (r *ledger.CreatedTransaction, err error)
+//@   property C07
+//@   modifies writes
+//@   ensures forall h Store :: {writes[h]} h != store ==> writes[h] == old(writes)[h]
+//@   ensures err == nil ==> r != nil
+//@   loop 3:
+//@     invariant accountMetadata[account] != nil
+
+//@ func (ctrl *DefaultController) revertTransaction(ctx context.Context, store Store, _schema *ledger.Schema, parameters Parameters[RevertTransaction]) (r *ledger.RevertedTransaction, err error)
+//@   property C06 C07 C15
+//@   modifies writes, lastBalances
+//@   ensures forall h Store :: {writes[h]} h != store ==> writes[h] == old(writes)[h]
+//@   ensures err == nil ==> r != nil
+//@   ensures err == nil ==> isReverse(r.RevertTransaction.Postings, r.RevertedTransaction.Postings)
+//@   ensures err == nil ==> r.RevertTransaction.Timestamp == (parameters.Input.AtEffectiveDate ? r.RevertedTransaction.Timestamp : deref(r.RevertedTransaction.RevertedAt))
+//@   ensures err == nil ==> writes[store] == old(writes)[store] + 2
+//@   ensures err == nil && !parameters.Input.Force ==> forall a string, x string :: {hasBal(lastBalances, a, x)} (hasBal(lastBalances, a, x) && a != "world") ==> balOf(lastBalances, a, x) + credits(r.RevertTransaction.Postings, a, x) - debits(r.RevertTransaction.Postings, a, x) >= 0
+//@   loop 1:
+//@     index k
+//@     mention hasBal(balances, posting.Source, posting.Asset)
+//@     mention balSet(balances, posting.Source, posting.Asset)
+//@     mention balOf(balances, posting.Source, posting.Asset)
+//@     mention hasBal(balances, posting.Destination, posting.Asset)
+//@     mention balSet(balances, posting.Destination, posting.Asset)
+//@     mention balOf(balances, posting.Destination, posting.Asset)
+//@     invariant balances != nil && amountsNonNil(reversedTx.Postings) && isReverse(reversedTx.Postings, originalTransaction.Postings)
+//@     invariant forall a string, x string :: {hasBal(balances, a, x)} {hasBal(lastBalances, a, x)} hasBal(balances, a, x) == hasBal(lastBalances, a, x)
+//@     invariant forall a string, x string :: {balSet(balances, a, x)} {hasBal(lastBalances, a, x)} hasBal(lastBalances, a, x) ==> balSet(balances, a, x)
+//@     invariant forall a string, x string :: {balOf(balances, a, x)} {hasBal(lastBalances, a, x)} hasBal(lastBalances, a, x) ==> balOf(balances, a, x) == balOf(lastBalances, a, x) + credits_upto(reversedTx.Postings, k, a, x) - debits_upto(reversedTx.Postings, k, a, x)
+//@   loop 2:
+//@     visited va
+//@     invariant forall a string, x string :: {hasBal(balances, a, x)} (va[a] && hasBal(balances, a, x) && a != "world") ==> balOf(balances, a, x) >= 0
+//@   loop 3:
+//@     visited vx
+//@     mention hasBal(balances, account, asset)
+//@     mention balOf(balances, account, asset)
+//@     invariant forall x string :: {hasBal(balances, account, x)} (vx[x] && hasBal(balances, account, x) && account != "world") ==> balOf(balances, account, x) >= 0
+
+//@ func (ctrl *DefaultController) saveTransactionMetadata(ctx context.Context, store Store, _schema *ledger.Schema, parameters Parameters[SaveTransactionMetadata]) (r *ledger.SavedMetadata, err error)
+//@   property C07
+//@   modifies writes
+//@   ensures forall h Store :: {writes[h]} h != store ==> writes[h] == old(writes)[h]
+//@   ensures err == nil ==> r != nil
+
+//@ func (ctrl *DefaultController) saveAccountMetadata(ctx context.Context, store Store, schema *ledger.Schema, parameters Parameters[SaveAccountMetadata]) (r *ledger.SavedMetadata, err error)
+//@   property C07
+//@   modifies writes
+//@   ensures forall h Store :: {writes[h]} h != store ==> writes[h] == old(writes)[h]
+//@   ensures err == nil ==> r != nil
+
+//@ func (ctrl *DefaultController) deleteTransactionMetadata(ctx context.Context, store Store, _schema *ledger.Schema, parameters Parameters[DeleteTransactionMetadata]) (r *ledger.DeletedMetadata, err error)
+//@   property C07
+//@   modifies writes
+//@   ensures forall h Store :: {writes[h]} h != store ==> writes[h] == old(writes)[h]
+//@   ensures err == nil ==> r != nil
+
+//@ func (ctrl *DefaultController) deleteAccountMetadata(ctx context.Context, store Store, schema *ledger.Schema, parameters Parameters[DeleteAccountMetadata]) (r *ledger.DeletedMetadata, err error)
+//@   property C07
+//@   modifies writes
+//@   ensures forall h Store :: {writes[h]} h != store ==> writes[h] == old(writes)[h]
+//@   ensures err == nil ==> r != nil
+
+//@ assumed func (r NumscriptRuntime) Execute(ctx context.Context, store Store, vars map[string]string) (res *NumscriptExecutionResult, err error)
+//@   ensures err == nil ==> res != nil
